@@ -571,6 +571,14 @@ func cmdCheck(prop, tier string) int {
 		}
 		cf := mkCase(prop, f.Pkg, f.Root, f.Args, f.Model, f.Yields)
 		cf.Finding = f
+		if spec != nil && len(spec.NativeStress) >= 2 {
+			cf.Args = append([]int(nil), cf.Args...)
+			for k := 0; k+1 < len(spec.NativeStress); k += 2 {
+				if spec.NativeStress[k] < len(cf.Args) {
+					cf.Args[spec.NativeStress[k]] = spec.NativeStress[k+1]
+				}
+			}
+		}
 		rp := filepath.Join(verifDir, "out", "replay", fmt.Sprintf("%s-%s-%d.json", prop, f.Root, i))
 		b, _ := json.MarshalIndent(cf, "", " ")
 		os.WriteFile(rp, b, 0o644)
